@@ -231,6 +231,34 @@
                 Q - cmul(cs, sk.t_0_hat_mont[k].0)[n],
                 sgn_w(a, ys, k)[n] - cmul(cs, sk.s_2_hat_mont[k].0)[n] + cmul(cs, sk.t_0_hat_mont[k].0)[n]) { 1int } else { 0int })
     }
+    // ---- Tier 2: FIPS 204 Algorithm 6 (KeyGen_internal) over the key structs
+    pub open spec fn vec_ints<const N: usize>(v: [R; N]) -> Seq<Seq<int>> { Seq::new(N as nat, |i: int| poly_ints(v[i].0)) }
+    // t = NTT^-1(A o NTT(s1)) + s2, reduced into [0, q)
+    pub open spec fn kg_t<const K: usize, const L: usize>(a: [[T; L]; K], s1: [R; L], s2: [R; K], k: int, n: int) -> int {
+        (sgn_w(a, vec_ints(s1), k)[n] + s2[k].0[n] as int) % (Q as int)
+    }
+    pub open spec fn kg_t1<const K: usize, const L: usize>(a: [[T; L]; K], s1: [R; L], s2: [R; K]) -> Seq<Seq<int>> {
+        Seq::new(K as nat, |k: int| Seq::new(256, |n: int| spec_power2round(kg_t(a, s1, s2, k, n)).0))
+    }
+    pub open spec fn kg_t0<const K: usize, const L: usize>(a: [[T; L]; K], s1: [R; L], s2: [R; K]) -> Seq<Seq<int>> {
+        Seq::new(K as nat, |k: int| Seq::new(256, |n: int| spec_power2round(kg_t(a, s1, s2, k, n)).1))
+    }
+    pub open spec fn kg_wit<const K: usize, const L: usize>(xi: Seq<u8>, eta: int, pk: PublicKey<K, L>, sk: PrivateKey<K, L>,
+            a: [[T; L]; K], s1: [R; L], s2: [R; K], pkb: Seq<u8>) -> bool {
+        let st = shake256(keygen_seed_input(xi, K as int, L as int));
+        &&& pk.rho@ == stream_take(st, 0, 32) && sk.rho@ == pk.rho@ && sk.cap_k@ == stream_take(st, 96, 32)
+        &&& expand_a_rel(pk.rho@, a)
+        &&& expand_s_rel(stream_take(st, 32, 64), eta, s1, s2)
+        &&& pk_coefs_ok(pk, kg_t1(a, s1, s2))
+        &&& sk_coefs_ok(sk, eta, vec_ints(s1), vec_ints(s2), kg_t0(a, s1, s2))
+        // tr = H(pkEncode(rho, t1), 64)
+        &&& pkb.len() == 32 + 320 * K && pkb.subrange(0, 32) == pk.rho@
+        &&& forall|i: int, j: int| 0 <= i < K && 0 <= j < 256 ==> #[trigger] field(pk_t1_bytes(pkb, i), 10, j) == kg_t1(a, s1, s2)[i][j]
+        &&& pk.tr@ == stream_take(shake256(pkb), 0, 64) && sk.tr@ == pk.tr@
+    }
+    pub open spec fn keygen_spec<const K: usize, const L: usize>(xi: Seq<u8>, eta: int, pk: PublicKey<K, L>, sk: PrivateKey<K, L>) -> bool {
+        exists|a: [[T; L]; K], s1: [R; L], s2: [R; K], pkb: Seq<u8>| #[trigger] kg_wit(xi, eta, pk, sk, a, s1, s2, pkb)
+    }
     // ---- Tier 2: the private key struct holds NTT(s1), NTT(s2), NTT(t0) in Montgomery form, for in-range s1, s2, t0 (struct invariant of
     // every key that key generation or deserialisation returns); the coefficient vectors are recovered exactly by into_bytes
     pub open spec fn vec_in(s: Seq<Seq<int>>, cnt: int, lo: int, hi: int) -> bool {
@@ -486,6 +514,7 @@
         if s < 0 { assert((s + Q) % (Q as int) == s + Q); assert(s % (Q as int) == s + Q); }
     }
     // res is the infinity norm (of the centred representatives) of the vector w
+    #[verifier::opaque]
     pub open spec fn inf_norm_is<const ROW: usize>(w: [R; ROW], res: i32) -> bool {
         &&& forall|x: int, n: int| 0 <= x < ROW && 0 <= n < 256 ==> spec_abs(mod_pm(#[trigger] w[x].0[n] as int, Q as int)) <= res
         &&& exists|x: int, n: int| 0 <= x < ROW && 0 <= n < 256 && spec_abs(mod_pm(#[trigger] w[x].0[n] as int, Q as int)) == res
@@ -523,6 +552,7 @@
             assert(h[k].0[j] as int == f(k, j));
         }
     }
+    #[verifier::opaque]
     pub open spec fn attempt_rejected<const K: usize, const L: usize>(a: [[T; L]; K], sk: PrivateKey<K, L>, ys: Seq<Seq<int>>, c: R,
             beta: int, gamma1: int, gamma2: int, omega: int) -> bool {
         let cs = poly_ints(c.0);
@@ -580,6 +610,7 @@
             && all_rejected_before(a, sk, mu, sign_rhopp(sk.cap_k@, rnd, mu), kappa, beta, gamma1, gamma2, omega, tau, lam4)
     }
     // the same attempt, stated over the signer's working variables (before encoding)
+    #[verifier::opaque]
     pub open spec fn attempt_exec<const K: usize, const L: usize>(a: [[T; L]; K], sk: PrivateKey<K, L>, ys: Seq<Seq<int>>, c: R, c_tilde: Seq<u8>,
             z: [R; L], h: [R; K], mu: Seq<u8>, beta: int, gamma1: int, gamma2: int, lam4: int) -> bool {
         let cs = poly_ints(c.0);
@@ -592,6 +623,115 @@
                 Q - cmul(cs, sk.t_0_hat_mont[k].0)[n],
                 sgn_w(a, ys, k)[n] - cmul(cs, sk.s_2_hat_mont[k].0)[n] + cmul(cs, sk.t_0_hat_mont[k].0)[n]) { 1int } else { 0int })
         &&& exists|w1b: Seq<u8>| #[trigger] w1_fields_ok(w1b, gamma2, K as int, sgn_w1fn(a, ys, gamma2)) && c_tilde == stream_take(shake256(mu + w1b), 0, lam4)
+    }
+    // ---- the signer's working variables in terms of the specification values (each line is a closure contract of sign_internal);
+    // kept opaque in the signing loop so that the gate reasoning happens in the lemmas below, not in the loop's own query
+    #[verifier::opaque]
+    pub open spec fn sgn_vars1<const K: usize, const L: usize>(a: [[T; L]; K], sk: PrivateKey<K, L>, ys: Seq<Seq<int>>, cs: Seq<int>, gamma2: int, z: [R; L], r0: [R; K]) -> bool {
+        &&& forall|l: int, n: int| 0 <= l < L && 0 <= n < 256 ==> in_red_dom(#[trigger] z[l].0[n] as int) && cong(z[l].0[n] as int, ys[l][n] + cmul(cs, sk.s_1_hat_mont[l].0)[n])
+        &&& forall|k: int, n: int| 0 <= k < K && 0 <= n < 256 ==> -gamma2 <= #[trigger] r0[k].0[n] <= gamma2
+                && r0[k].0[n] as int == spec_low_bits(gamma2, sgn_w(a, ys, k)[n] - cmul(cs, sk.s_2_hat_mont[k].0)[n])
+    }
+    #[verifier::opaque]
+    pub open spec fn sgn_vars2<const K: usize, const L: usize>(a: [[T; L]; K], sk: PrivateKey<K, L>, ys: Seq<Seq<int>>, cs: Seq<int>, gamma2: int, c_t_0: [R; K], h: [R; K]) -> bool {
+        &&& forall|k: int, n: int| 0 <= k < K && 0 <= n < 256 ==> #[trigger] c_t_0[k].0[n] as int == cmul(cs, sk.t_0_hat_mont[k].0)[n]
+        &&& forall|k: int, n: int| 0 <= k < K && 0 <= n < 256 ==> #[trigger] h[k].0[n] as int == sgn_hfn(a, sk, ys, cs, gamma2)(k, n)
+    }
+    // first gate (Algorithm 7 line 23), rejecting side
+    pub proof fn lemma_gate1_rej<const K: usize, const L: usize>(a: [[T; L]; K], sk: PrivateKey<K, L>, ys: Seq<Seq<int>>, c: R, z: [R; L], r0: [R; K],
+            z_norm: i32, r0_norm: i32, beta: int, gamma1: int, gamma2: int, omega: int)
+        requires sgn_vars1(a, sk, ys, poly_ints(c.0), gamma2, z, r0), inf_norm_is(z, z_norm), inf_norm_is(r0, r0_norm), 0 < gamma2 < 4_000_000,
+            z_norm >= gamma1 - beta || r0_norm >= gamma2 - beta,
+        ensures attempt_rejected(a, sk, ys, c, beta, gamma1, gamma2, omega),
+    {
+        reveal(sgn_vars1); reveal(inf_norm_is); reveal(attempt_rejected);
+        let cs = poly_ints(c.0);
+        if z_norm >= gamma1 - beta {
+            let (x, n) = choose|x: int, n: int| 0 <= x < L && 0 <= n < 256 && spec_abs(mod_pm(#[trigger] z[x].0[n] as int, Q as int)) == z_norm;
+            lemma_mod_pm_cong(z[x].0[n] as int, ys[x][n] + cmul(cs, sk.s_1_hat_mont[x].0)[n]);
+            assert(rej_z(sk, ys, cs, x, n, gamma1 - beta));
+        } else {
+            let (x, n) = choose|x: int, n: int| 0 <= x < K && 0 <= n < 256 && spec_abs(mod_pm(#[trigger] r0[x].0[n] as int, Q as int)) == r0_norm;
+            let rv = r0[x].0[n] as int;
+            assert(rv == spec_low_bits(gamma2, sgn_w(a, ys, x)[n] - cmul(cs, sk.s_2_hat_mont[x].0)[n]));
+            assert(-gamma2 <= rv <= gamma2);
+            assert(mod_pm(rv, Q as int) == rv) by {
+                if rv < 0 { assert((rv + Q) % (Q as int) == rv + Q); assert(rv % (Q as int) == rv + Q); }
+            }
+            assert(rej_r0(a, sk, ys, cs, x, n, gamma2, gamma2 - beta));
+        }
+    }
+    // second gate (line 28), rejecting side
+    pub proof fn lemma_gate2_rej<const K: usize, const L: usize>(a: [[T; L]; K], sk: PrivateKey<K, L>, ys: Seq<Seq<int>>, c: R, c_t_0: [R; K], h: [R; K],
+            v: i32, beta: int, gamma1: int, gamma2: int, omega: int)
+        requires sgn_vars2(a, sk, ys, poly_ints(c.0), gamma2, c_t_0, h), inf_norm_is(c_t_0, v), 1 <= K <= 8,
+            v >= gamma2 || hint_count(h@, 256 * K) > omega,
+        ensures attempt_rejected(a, sk, ys, c, beta, gamma1, gamma2, omega),
+    {
+        reveal(sgn_vars2); reveal(inf_norm_is); reveal(attempt_rejected);
+        let cs = poly_ints(c.0);
+        if v >= gamma2 {
+            let (x, n) = choose|x: int, n: int| 0 <= x < K && 0 <= n < 256 && spec_abs(mod_pm(#[trigger] c_t_0[x].0[n] as int, Q as int)) == v;
+            assert(c_t_0[x].0[n] as int == cmul(cs, sk.t_0_hat_mont[x].0)[n]);
+            assert(rej_ct0(sk, cs, x, n, gamma2));
+        } else {
+            lemma_fn_count(h, sgn_hfn(a, sk, ys, cs, gamma2), 256 * K as int);
+        }
+    }
+    // both gates passed: the working variables are an accepted attempt
+    pub proof fn lemma_attempt_intro<const K: usize, const L: usize>(a: [[T; L]; K], sk: PrivateKey<K, L>, ys: Seq<Seq<int>>, c: R, c_tilde: Seq<u8>, w1b: Seq<u8>,
+            z: [R; L], r0: [R; K], c_t_0: [R; K], h: [R; K], z_norm: i32, r0_norm: i32, v: i32, mu: Seq<u8>, beta: int, gamma1: int, gamma2: int, lam4: int)
+        requires sgn_vars1(a, sk, ys, poly_ints(c.0), gamma2, z, r0), sgn_vars2(a, sk, ys, poly_ints(c.0), gamma2, c_t_0, h),
+            inf_norm_is(z, z_norm), inf_norm_is(r0, r0_norm), inf_norm_is(c_t_0, v), 0 < gamma2 < 4_000_000,
+            z_norm < gamma1 - beta, r0_norm < gamma2 - beta, v < gamma2,
+            w1_fields_ok(w1b, gamma2, K as int, sgn_w1fn(a, ys, gamma2)), c_tilde == stream_take(shake256(mu + w1b), 0, lam4),
+        ensures attempt_exec(a, sk, ys, c, c_tilde, z, h, mu, beta, gamma1, gamma2, lam4),
+    {
+        reveal(sgn_vars1); reveal(sgn_vars2); reveal(inf_norm_is); reveal(attempt_exec);
+        let cs = poly_ints(c.0);
+        assert forall|k: int, n: int| 0 <= k < K && 0 <= n < 256 implies
+            spec_abs(spec_low_bits(gamma2, #[trigger] sgn_w(a, ys, k)[n] - cmul(cs, sk.s_2_hat_mont[k].0)[n])) < gamma2 - beta by {
+            let rv = r0[k].0[n] as int;
+            assert(rv == spec_low_bits(gamma2, sgn_w(a, ys, k)[n] - cmul(cs, sk.s_2_hat_mont[k].0)[n]));
+            assert(-gamma2 <= rv <= gamma2);
+            assert(mod_pm(rv, Q as int) == rv) by {
+                if rv < 0 { assert((rv + Q) % (Q as int) == rv + Q); assert(rv % (Q as int) == rv + Q); }
+            }
+            assert(spec_abs(mod_pm(r0[k].0[n] as int, Q as int)) <= r0_norm);
+        }
+        assert forall|k: int, n: int| 0 <= k < K && 0 <= n < 256 implies spec_abs(mod_pm(#[trigger] cmul(cs, sk.t_0_hat_mont[k].0)[n], Q as int)) < gamma2 by {
+            assert(c_t_0[k].0[n] as int == cmul(cs, sk.t_0_hat_mont[k].0)[n]);
+            assert(spec_abs(mod_pm(c_t_0[k].0[n] as int, Q as int)) <= v);
+        }
+        assert forall|l: int, n: int| 0 <= l < L && 0 <= n < 256 implies in_red_dom(#[trigger] z[l].0[n] as int) && spec_abs(mod_pm(z[l].0[n] as int, Q as int)) < gamma1 - beta by {
+            assert(spec_abs(mod_pm(z[l].0[n] as int, Q as int)) <= z_norm);
+        }
+    }
+    // the verifier's norm check on the decoded response is FIPS 204's ||z|| < gamma1 - beta over the encoded fields
+    pub proof fn lemma_vfy_norm<const L: usize>(z: [R; L], sig: Seq<u8>, gamma1: int, beta: int, lam4: int, v: i32)
+        requires inf_norm_is(z, v), 1 <= L, 0 < gamma1 < 4_000_000,
+            forall|i: int, j: int| 0 <= i < L && 0 <= j < 256 ==> -gamma1 < #[trigger] z[i].0[j] <= gamma1 && z[i].0[j] as int == sig_z(sig, gamma1, lam4, i, j),
+        ensures v <= gamma1, (v < gamma1 - beta) == sig_z_norm_ok(sig, gamma1, beta, lam4, L as int),
+    {
+        reveal(inf_norm_is);
+        assert forall|i: int, j: int| 0 <= i < L && 0 <= j < 256 implies
+            spec_abs(mod_pm(#[trigger] z[i].0[j] as int, Q as int)) == spec_abs(sig_z(sig, gamma1, lam4, i, j)) by {
+            let zz = z[i].0[j] as int;
+            assert(zz == sig_z(sig, gamma1, lam4, i, j));
+            assert(mod_pm(zz, Q as int) == zz) by {
+                if zz < 0 { assert((zz + Q) % (Q as int) == zz + Q); assert(zz % (Q as int) == zz + Q); }
+            }
+        }
+        if v < gamma1 - beta {
+            assert forall|i: int, j: int| 0 <= i < L && 0 <= j < 256 implies -(gamma1 - beta) < #[trigger] sig_z(sig, gamma1, lam4, i, j) < gamma1 - beta by {
+                assert(spec_abs(mod_pm(z[i].0[j] as int, Q as int)) == spec_abs(sig_z(sig, gamma1, lam4, i, j)));
+            }
+        } else {
+            let (x, n) = choose|x: int, n: int| 0 <= x < L && 0 <= n < 256 && spec_abs(mod_pm(#[trigger] z[x].0[n] as int, Q as int)) == v;
+            assert(spec_abs(sig_z(sig, gamma1, lam4, x, n)) == v);
+        }
+        let (x, n) = choose|x: int, n: int| 0 <= x < L && 0 <= n < 256 && spec_abs(mod_pm(#[trigger] z[x].0[n] as int, Q as int)) == v;
+        assert(spec_abs(sig_z(sig, gamma1, lam4, x, n)) == v);
     }
     pub proof fn lemma_mod_step(k: int, l: int)
         requires l > 0, k >= 0, k % l == 0,
@@ -618,6 +758,7 @@
             sign_spec(sig, sk, mu, rnd, beta, gamma1, gamma2, omega, tau, lam4),
             sig_z_norm_ok(sig, gamma1, beta, lam4, L as int),
     {
+        reveal(attempt_exec);
         lemma_bitlen_consts();
         let ys = mask_ys(rhopp, kappa, gamma1, L as int);
         let cs = poly_ints(c.0);
